@@ -658,6 +658,9 @@ impl Add for Natural {
                         vec.push(lower);
                     }
                 }
+                if vec.len() != vec.capacity() {
+                    vec.push(0);
+                }
             } else {
                 vec.extend_from_slice(&l_digits[..start_digit]);
                 let mut lower = 0;
